@@ -28,17 +28,49 @@
 (*                      submission per relay run at a time) the driver lets the round go first.       *)
 (* In the simulated histories a round with lat = "held" opens such a window for the next one or two    *)
 (* steps (win).                                                                                     *)
+(*                                                                                                *)
+(* THE KIND AND THE POSITION OF A FAILURE.  A failing relay / beacon node / signing request /        *)
+(* configuration source fails with a KIND of error (ErrKindsAll of BlockRelay: ordinary, the        *)
+(* client's own time-out = wraps context.DeadlineExceeded while the caller's context is live, wraps  *)
+(* context.Canceled, ErrNotActive), and which of the configured nodes (first / middle / last of      *)
+(* three) or relays fails is part of the scenario: relayout / nodeout = {<<id, kind>>} of the        *)
+(* failing ones (Prep: of every node, "ok" included).  In the simulated histories and the matrix /    *)
+(* after / window families the kinds come from a palette (Pal: one kind per id, uniform and mixed);    *)
+(* three scripted families enumerate the assignments themselves, each followed by a healthy call of    *)
+(* the same sort on the same instance:                                                               *)
+(*   Script = "prepkinds"  Fetch(k) ; Prep(every [Nodes -> ok | kind]) ; Prep(all ok)                   *)
+(*   Script = "regkinds"   Fetch(k) ; Round(every [Relays -> ok | kind] with healthy nodes, every       *)
+(*                         [Nodes -> ok | kind] with healthy relays, one failing relay x one failing     *)
+(*                         node) ; Round()                                                            *)
+(*   Script = "fwdkinds"   Fetch(k) ; Fwd(every [Relays -> ok | kind]) ; Fwd(all ok)                     *)
 EXTENDS BlockRelay, Json
 
 CONSTANTS ScenLen,      \* steps per scenario
           MaxSignFail,  \* failing signing requests per round
           Matrix,       \* TRUE: the scenarios are "fetch a document ; one round with every failure combination"
           History,      \* TRUE: the scenarios are "(fetch a document ; round of all accounts) x ScenLen/2", every sequence
-          Script        \* "none" | "after" | "window" (see above)
+          Script        \* "none" | "after" | "window" | "prepkinds" | "regkinds" | "fwdkinds" (see above)
 
 VARIABLES hist, nk,
-          win           \* 0: no window; n > 0: inside the window of a held round, n nested steps to go; -1: Release is due
-svars == <<vars, hist, nk, win>>
+          win,          \* 0: no window; n > 0: inside the window of a held round, n nested steps to go; -1: Release is due
+          pal,          \* palette of failure kinds of the next step (simulated histories)
+          turn          \* simulated histories: "pick" (the kind of the next step and its palette are chosen) | "act"
+svars == <<vars, hist, nk, win, pal, turn>>
+
+\* palettes: which kind of failure relay / node i (and a signing request: index 3) shows when it is scripted to fail
+NPal == 7
+Pal(p) ==
+  CASE p = 1 -> <<"err", "err", "err">>
+    [] p = 2 -> <<"deadline", "deadline", "deadline">>
+    [] p = 3 -> <<"canceled", "canceled", "canceled">>
+    [] p = 4 -> <<"notactive", "notactive", "notactive">>
+    [] p = 5 -> <<"deadline", "err", "canceled">>
+    [] p = 6 -> <<"err", "deadline", "notactive">>
+    [] p = 7 -> <<"canceled", "notactive", "deadline">>
+OutOf(S, p) == {<<i, Pal(p)[i]>> : i \in S}
+SignKind(p) == Pal(p)[3]
+Outs == {"ok"} \cup ErrKindsAll
+NonOk(f) == {<<i, f[i]>> : i \in {j \in DOMAIN f : f[j] # "ok"}}
 
 DocJson(k) == LET d == Catalogue(k) IN
     [id |-> k, bad |-> d.bad,
@@ -52,6 +84,8 @@ SInit ==
     /\ hist = <<[ev |-> "Reset", docs |-> {DocJson(k) : k \in DocIds}]>>
     /\ nk = 1
     /\ win = 0
+    /\ pal = 1
+    /\ turn = "act"
 
 H(e) == hist' = Append(hist, e)
 
@@ -67,65 +101,104 @@ FetchStep ==
         /\ ConfigFetch(out) /\ UNCHANGED devVars
         /\ H([ev |-> "Fetch", out |-> out.t, doc |-> out.doc])
 
-RoundStep ==
+\* a round step: the failing signing requests, relays and nodes, each with the kind of its failure
+RoundEv(accts, sf, sk, ro, no, lat) ==
+    [ev |-> "Round", accts |-> accts, signfail |-> sf, signkind |-> sk, relayout |-> ro, nodeout |-> no, lat |-> lat]
+
+\* P: the palettes to choose from (the matrix enumerates them; a simulated history has picked one)
+RoundStep(P) ==
     \E accts \in IF Matrix THEN {Validators} ELSE AcctSets :
       \E sf \in {S \in SUBSET WantedPairs(accts) : Cardinality(S) <= MaxSignFail},
          rf \in SUBSET Relays, nf \in SUBSET Nodes, lat \in Lats \cup (IF Matrix THEN {} ELSE {"held"}) :
-        /\ H([ev |-> "Round", accts |-> accts, signfail |-> sf, relayfail |-> rf, nodefail |-> nf, lat |-> lat])
+       \E p \in (IF sf = {} /\ rf = {} /\ nf = {} THEN {1} ELSE P) :
+        /\ H(RoundEv(accts, sf, SignKind(p), OutOf(rf, p), OutOf(nf, p), lat))
         /\ win' = IF lat = "held" THEN 1 + (Cardinality(rf) % 2) ELSE 0
         /\ UNCHANGED vars
 
 \* a REST forwarding call inside the window of a held round (the second lane of BlockRelay)
 Fwd2Step ==
     \E regs \in {S \in SUBSET FwdCandidates : Cardinality(S) \in 1..2}, rf \in SUBSET Relays :
-        /\ H([ev |-> "Fwd2", regs |-> {<<x.v, x.fee, x.gas>> : x \in regs}, relayfail |-> rf, lat |-> "none"])
+        /\ H([ev |-> "Fwd2", regs |-> {<<x.v, x.fee, x.gas>> : x \in regs}, relayout |-> OutOf(rf, pal), lat |-> "none"])
         /\ UNCHANGED vars
 
 ReleaseStep == H([ev |-> "Release"]) /\ UNCHANGED vars
 
 PrepStep ==
-    \E accts \in AcctSets, po \in [Nodes -> {"ok", "err", "notactive"}], lat \in {"none", "slow"} :
+    \E accts \in AcctSets, po \in [Nodes -> Outs], lat \in {"none", "slow"} :
         /\ H([ev |-> "Prep", accts |-> accts, nodeout |-> {<<n, po[n]>> : n \in Nodes}, lat |-> lat])
         /\ UNCHANGED vars
 
 FwdStep ==
     \E regs \in {S \in SUBSET FwdCandidates : Cardinality(S) \in 1..3}, rf \in SUBSET Relays, lat \in Lats :
-        /\ H([ev |-> "Fwd", regs |-> {<<x.v, x.fee, x.gas>> : x \in regs}, relayfail |-> rf, lat |-> lat])
+        /\ H([ev |-> "Fwd", regs |-> {<<x.v, x.fee, x.gas>> : x \in regs}, relayout |-> OutOf(rf, pal), lat |-> lat])
         /\ UNCHANGED vars
 
 \* TLC's simulator evaluates the invariants on every candidate successor: the closing step has a single
 \* successor, so that exactly the behaviours that were walked are printed
 Ended == Len(hist) > 1 /\ hist[Len(hist)].ev = "End"
-EndStep == Len(hist) >= ScenLen + 1 /\ win = 0 /\ ~Ended /\ H([ev |-> "End"]) /\ nk' = nk /\ UNCHANGED <<vars, win>>
+EndStep == Len(hist) >= ScenLen + 1 /\ win = 0 /\ ~Ended /\ H([ev |-> "End"]) /\ nk' = nk /\ UNCHANGED <<vars, win, pal, turn>>
 
 \* ---- the scripted families (a whole history in one step; nothing of BlockRelay's state is needed) ----
 WantedOf(d, accts) ==
     UNION {{<<v, t[2], t[3]>> : t \in Resolve(d, v).rel} : v \in {a \in accts : Resolve(d, a).ok}}
-Rnd(sf, rf, nf, lat) == [ev |-> "Round", accts |-> Validators, signfail |-> sf, relayfail |-> rf, nodefail |-> nf, lat |-> lat]
+Rnd(sf, rf, nf, lat) == RoundEv(Validators, sf, "err", OutOf(rf, 1), OutOf(nf, 1), lat)
+\* the same with the failure kinds of palette p
+RndP(sf, rf, nf, lat, p) == RoundEv(Validators, sf, SignKind(p), OutOf(rf, p), OutOf(nf, p), lat)
 Fet(k) == [ev |-> "Fetch", out |-> "good", doc |-> k]
 \* one registration of a validator Vouch holds (dropped once a round has run) and one of an external validator
 ScriptRegs == {<<1, 2, 2>>, <<3, 1, 1>>}
 
-AfterHist(k, sf, rf, nf, lat) ==
-    <<Fet(k), Rnd(sf, rf, nf, lat), Rnd({}, {}, {}, "none"),
-      [ev |-> "Fwd", regs |-> ScriptRegs, relayfail |-> {}, lat |-> "none"], Rnd({}, {}, {}, "slow")>>
+FwdEv(ev, ro, lat) == [ev |-> ev, regs |-> ScriptRegs, relayout |-> ro, lat |-> lat]
 
-WindowHist(k, k2, rf, rf2, fwdFirst) ==
-    LET f2 == [ev |-> "Fwd2", regs |-> ScriptRegs, relayfail |-> rf2, lat |-> "none"] IN
-    <<Fet(k), Rnd({}, rf, {}, "held")>>
+AfterHist(k, sf, rf, nf, lat, p) ==
+    <<Fet(k), RndP(sf, rf, nf, lat, p), Rnd({}, {}, {}, "none"), FwdEv("Fwd", {}, "none"), Rnd({}, {}, {}, "slow")>>
+
+WindowHist(k, k2, rf, rf2, fwdFirst, p) ==
+    LET f2 == FwdEv("Fwd2", OutOf(rf2, p), "none") IN
+    <<Fet(k), RndP({}, rf, {}, "held", p)>>
     \o (IF fwdFirst THEN <<f2, Fet(k2)>> ELSE <<Fet(k2), f2>>)
     \o <<[ev |-> "Release"], Rnd({}, {}, {}, "none")>>
+
+\* ---- the kind and the position of a failure, enumerated ----
+AllOk(S) == [i \in S |-> "ok"]
+PrepEv(f, lat) == [ev |-> "Prep", accts |-> Validators, nodeout |-> {<<n, f[n]>> : n \in Nodes}, lat |-> lat]
+PrepKindsHist(k, f, lat) == <<Fet(k), PrepEv(f, lat), PrepEv(AllOk(Nodes), "none")>>
+
+RoundO(fr, fn, lat) == RoundEv(Validators, {}, "err", NonOk(fr), NonOk(fn), lat)
+RegKindsHist(k, fr, fn, lat) == <<Fet(k), RoundO(fr, fn, lat), Rnd({}, {}, {}, "none")>>
+\* every assignment for the relays with healthy nodes, every one for the nodes with healthy relays, and one failing
+\* relay together with one failing node
+RegKindPairs ==
+    {x \in [Relays -> Outs] \X [Nodes -> Outs] :
+        \/ x[1] = AllOk(Relays) \/ x[2] = AllOk(Nodes)
+        \/ Cardinality(NonOk(x[1])) = 1 /\ Cardinality(NonOk(x[2])) = 1}
+
+FwdKindsHist(k, fr, lat) == <<Fet(k), FwdEv("Fwd", NonOk(fr), lat), FwdEv("Fwd", {}, "none")>>
+
+\* the palettes of the after / window families: uniform kinds and one mixed
+ScriptPals(failing) == IF failing THEN {1, 2, 3, 4, 5} ELSE {1}
 
 ScriptStep ==
     /\ Len(hist) = 1
     /\ \/ /\ Script = "after"
           /\ \E k \in DocIds, rf \in SUBSET Relays, nf \in SUBSET Nodes, lat \in Lats :
                \E sf \in {S \in SUBSET WantedOf(k, Validators) : Cardinality(S) <= MaxSignFail} :
-                  hist' = hist \o AfterHist(k, sf, rf, nf, lat)
+                 \E p \in ScriptPals(sf # {} \/ rf # {} \/ nf # {}) :
+                  hist' = hist \o AfterHist(k, sf, rf, nf, lat, p)
        \/ /\ Script = "window"
           /\ \E k \in DocIds, k2 \in DocIds, rf \in SUBSET Relays, rf2 \in {{}, {2}}, fwdFirst \in BOOLEAN :
-                  hist' = hist \o WindowHist(k, k2, rf, rf2, fwdFirst)
-    /\ UNCHANGED <<vars, nk, win>>
+               \E p \in ScriptPals(rf # {} \/ rf2 # {}) :
+                  hist' = hist \o WindowHist(k, k2, rf, rf2, fwdFirst, p)
+       \/ /\ Script = "prepkinds"
+          /\ \E k \in DocIds \cap {2, 3}, f \in [Nodes -> Outs], lat \in {"none", "slow"} :
+                  hist' = hist \o PrepKindsHist(k, f, lat)
+       \/ /\ Script = "regkinds"
+          /\ \E k \in DocIds \cap {1, 2}, x \in RegKindPairs :
+                  hist' = hist \o RegKindsHist(k, x[1], x[2], "slow")
+       \/ /\ Script = "fwdkinds"
+          /\ \E k \in DocIds \cap {1, 2}, fr \in [Relays -> Outs], lat \in {"slow", "batched"} :
+                  hist' = hist \o FwdKindsHist(k, fr, lat)
+    /\ UNCHANGED <<vars, nk, win, pal, turn>>
 
 SNext ==
   \/ EndStep
@@ -137,22 +210,26 @@ SNext ==
     /\ IF History
        THEN /\ \/ Len(hist) % 2 = 1 /\ (\E k \in DocIds : ConfigFetch([t |-> "good", doc |-> k]) /\ UNCHANGED devVars
                                                          /\ H([ev |-> "Fetch", out |-> "good", doc |-> k]))
-               \/ Len(hist) % 2 = 0 /\ H([ev |-> "Round", accts |-> Validators, signfail |-> {}, relayfail |-> {}, nodefail |-> {}, lat |-> "none"])
-                                      /\ UNCHANGED vars
-            /\ nk' = nk /\ win' = 0
+               \/ Len(hist) % 2 = 0 /\ H(Rnd({}, {}, {}, "none")) /\ UNCHANGED vars
+            /\ nk' = nk /\ win' = 0 /\ UNCHANGED <<pal, turn>>
        ELSE IF Matrix
        THEN /\ \/ Len(hist) = 1 /\ (\E k \in DocIds : ConfigFetch([t |-> "good", doc |-> k]) /\ UNCHANGED devVars
                                                      /\ H([ev |-> "Fetch", out |-> "good", doc |-> k])) /\ win' = 0
-               \/ Len(hist) = 2 /\ RoundStep
-            /\ nk' = nk
+               \/ Len(hist) = 2 /\ RoundStep(1..NPal)
+            /\ nk' = nk /\ UNCHANGED <<pal, turn>>
+       \* simulated histories: the kind of the next step and its palette are picked in a step of their own (TLC's
+       \* simulator chooses uniformly among the successor states: uniform over kinds x palettes, then over the parameters)
+       ELSE IF turn = "pick"
+       THEN /\ nk' \in 1..9 /\ pal' \in 1..NPal /\ turn' = "act"
+            /\ UNCHANGED <<vars, hist, win>>
        ELSE /\ \/ win = 0 /\ KindOf(nk) = "Fetch" /\ FetchStep /\ win' = 0
-               \/ win = 0 /\ KindOf(nk) = "Round" /\ RoundStep
+               \/ win = 0 /\ KindOf(nk) = "Round" /\ RoundStep({pal})
                \/ win = 0 /\ KindOf(nk) = "Prep" /\ PrepStep /\ win' = 0
                \/ win = 0 /\ KindOf(nk) = "Fwd" /\ FwdStep /\ win' = 0
                \* inside the window of a held round: a fetch or a REST forwarding call, then the release
                \/ win > 0 /\ (FetchStep \/ Fwd2Step) /\ win' = IF win = 1 THEN -1 ELSE win - 1
                \/ win = -1 /\ ReleaseStep /\ win' = 0
-            /\ nk' \in 1..9
+            /\ turn' = "pick" /\ UNCHANGED <<nk, pal>>
 
 SSpec == SInit /\ [][SNext]_svars
 
